@@ -25,15 +25,17 @@ MT = "tangelo/toolboxes/qubit_mappings/mapping_transform.py"
 
 
 def find_alpha_clones(idx: Index) -> List[Tuple[FunctionInfo, ast.Assign]]:
-    """assignments whose value has the shape  X // 2 + Y // 2 + X % 2"""
+    """assignments of the number of alpha electrons computed from an electron number and a spin (integer arithmetic)"""
     out = []
     for f in idx.all_functions():
         for n in own_nodes(f.node):
-            if isinstance(n, ast.Assign) and len(n.targets) == 1:
+            if isinstance(n, ast.Assign) and len(n.targets) == 1 and "n_alpha" in norm(n.targets[0]):
                 v = n.value
-                fl = [x for x in ast.walk(v) if isinstance(x, ast.BinOp) and isinstance(x.op, ast.FloorDiv) and norm(x.right) == "2"]
-                md = [x for x in ast.walk(v) if isinstance(x, ast.BinOp) and isinstance(x.op, ast.Mod) and norm(x.right) == "2"]
-                if len(fl) == 2 and len(md) == 1 and "alpha" in norm(n.targets[0]):
+                names = {norm(x) for x in ast.walk(v) if isinstance(x, (ast.Name, ast.Attribute))}
+                has_elec = any("elec" in x for x in names)
+                has_spin = any(x.split(".")[-1] == "spin" for x in names)
+                arith = any(isinstance(x, ast.BinOp) and isinstance(x.op, (ast.FloorDiv, ast.Div, ast.Mod)) for x in ast.walk(v))
+                if has_elec and has_spin and arith:
                     out.append((f, n))
     return out
 
@@ -41,14 +43,13 @@ def find_alpha_clones(idx: Index) -> List[Tuple[FunctionInfo, ast.Assign]]:
 def decide_alpha_formula(rep: Report, rule: str, f: FunctionInfo, st: ast.Assign, want_sign=+1):
     """value == (n + s)/2 whenever n = s (mod 2): decided on n = 2a + r, s = 2b + r for r in {0, 1}"""
     v = st.value
-    md = [x for x in ast.walk(v) if isinstance(x, ast.BinOp) and isinstance(x.op, ast.Mod)][0]
-    nname = norm(md.left)
-    fl = [x for x in ast.walk(v) if isinstance(x, ast.BinOp) and isinstance(x.op, ast.FloorDiv)]
-    snames = [norm(x.left) for x in fl if norm(x.left) != nname]
-    if len(snames) != 1:
-        rep.violation(rule, f, st, text=f"{norm(st)}", what="n_alpha is computed from the electron number and the spin", reason="formula does not involve exactly electron number and spin")
+    names = sorted({norm(x) for x in ast.walk(v) if isinstance(x, (ast.Name, ast.Attribute)) and not isinstance(getattr(x, "ctx", None), ast.Store)})
+    nnames = [x for x in names if "elec" in x]
+    snames = [x for x in names if x.split(".")[-1] == "spin"]
+    if len(nnames) != 1 or len(snames) != 1:
+        rep.violation(rule, f, st, text=f"{norm(st)}", what="n_alpha is computed from the electron number and the spin", reason="formula does not involve exactly one electron number and one spin")
         return
-    sname = snames[0]
+    nname, sname = nnames[0], snames[0]
     a, b = sp.symbols("a b", integer=True)
     ok = True
     for r in (0, 1):
